@@ -82,6 +82,12 @@ def fits(kd, alg):
     return True
 
 
+EXPORTS = [0]
+PREVIOUS_ANCHOR = ('<?xml version="1.0" encoding="UTF-8"?>\n<TrustAnchor id="previous-export" source="http://data.iana.org/root-anchors/root-anchors.xml">\n<Zone>.</Zone>\n'
+                   + "".join(f'<KeyDigest id="Kold{i}" validFrom="2010-07-15T00:00:00+00:00">\n<KeyTag>{1000 + i}</KeyTag>\n<Algorithm>8</Algorithm>\n<DigestType>2</DigestType>\n'
+                             f'<Digest>{"%064X" % (i * 7919)}</Digest>\n</KeyDigest>\n' for i in range(12)) + "</TrustAnchor>\n").encode()
+
+
 def export_case(modules, ksks, keys_by_label, ident, kind, ttl=172800):
     """modules: signcases layout; ksks: {name: config dict}; keys_by_label: label -> key dict for the reference"""
     tok = S.build_token(modules)
@@ -96,8 +102,12 @@ def export_case(modules, ksks, keys_by_label, ident, kind, ttl=172800):
         count(kind + "-config-rejected:" + type(e).__name__)
         return
     out = WORK / "ta.xml"
+    # the anchor file is published at one path, run after run: what an earlier export left there (here: a longer document with more keys) is replaced, not patched
+    EXPORTS[0] += 1
     if out.exists():
         out.unlink()
+    if EXPORTS[0] % 2 == 0:
+        out.write_bytes(PREVIOUS_ANCHOR)
     ns = argparse.Namespace(hsm=None, id=ident, trustanchor=str(out), config=None, debug=False)
     r = vlib.run_impl(trustanchor, log, ns, cfg)
     probs = []
